@@ -12,9 +12,15 @@ E == Trace[l]
 
 TraceInit == Init /\ l = 1
 
-Observed == /\ pending' = E.pending
+\* Fields are compared when the harness could observe them: the stepper on the
+\* RuntimeRecorder sees r.records; the stepper that drives the real gRPC uploader
+\* against an in-process backend sees what the backend committed and the error
+\* Refresh returned.
+Has(f) == f \in DOMAIN E
+Observed == /\ (Has("pending") => pending' = E.pending)
             /\ delivered' = E.delivered
-            /\ delivMeta' = E.delivMeta
+            /\ (Has("delivMeta") => delivMeta' = E.delivMeta)
+            /\ (Has("err") => E.err = (E.ev = "UploadFail"))
 
 Consume(e) == l <= Len(Trace) /\ E.ev = e /\ l' = l + 1
 
@@ -28,9 +34,9 @@ TraceReset == /\ Consume("Reset")
 
 TraceRecord == Consume("Record") /\ Record(E.d) /\ Observed
 TraceRefreshReset == /\ Consume("RefreshReset") /\ RefreshReset(E.r) /\ Observed
-                     /\ inflight'[E.r].m = E.taken
-TraceUploadOK == Consume("UploadOK") /\ UploadOK(E.r) /\ Observed /\ ~E.mutated
-TraceUploadFail == Consume("UploadFail") /\ UploadFail(E.r) /\ Observed /\ ~E.mutated
+                     /\ (Has("taken") => inflight'[E.r].m = E.taken)
+TraceUploadOK == Consume("UploadOK") /\ UploadOK(E.r) /\ Observed /\ (Has("mutated") => ~E.mutated)
+TraceUploadFail == Consume("UploadFail") /\ UploadFail(E.r) /\ Observed /\ (Has("mutated") => ~E.mutated)
 \* Free-running stress: only the quiescent totals are observable.
 TraceSummary == /\ Consume("Summary")
                 /\ \A d \in Dev : E.delivered[d] + E.pending[d] = E.recorded[d]
